@@ -39,7 +39,8 @@ CheckLayout ==
      THEN Reject("layout: not (1 <= batch_size <= max_batch_size, pad >= 0, slots = n + pad, n_devices = requested)")
      ELSE /\ (LayoutOf(o) # B!Layout(o.n, o.maxb, o.d)) =>
                 PrintT(<<"DRIFT", tid, "layout differs from the documented Layout(n, maxb, d)">>)
-          /\ Advance("laid_out")
+          \* layouts with tens of millions of slots are observed through their attributes only
+          /\ Advance(IF o.attrsonly THEN "unbatched3" ELSE "laid_out")
 
 CheckPrepared ==
   /\ step = "laid_out" /\ verdict = "running"
